@@ -473,7 +473,7 @@ class Ob:
         self.note = ""
         self.cex = None
 
-    def must_hold(self, label, hyps, concl):
+    def must_hold(self, label, hyps, concl, witness=True):
         """hyps => concl for all values: check hyps /\\ not concl unsat; and hyps sat (vacuity)."""
         r, r2, model = decide(list(hyps) + [z3.Not(concl)], self.cap, label, self.log)
         if r == "sat":
@@ -491,6 +491,8 @@ class Ob:
             return False
         if not r2.endswith("unsat"):
             self.note += " [%s: no second opinion (%s)]" % (label, r2)
+        if not witness:
+            return True
         # vacuity witness
         rv, _, _ = decide(list(hyps), self.cap, label + ".witness", self.log)
         if rv != "sat":
@@ -649,7 +651,50 @@ def ob_lcs_step(fns, consts, ob):
     return ["BlockHashPositionArrayImplInternal::edit_distance_internal (MIR: loop body at its cut point, entry, exit)"]
 
 
-OBLIGATIONS = {"roll_step": ob_roll_step, "lcs_step": ob_lcs_step}
+def ob_pa_init_step(fns, consts, ob):
+    """C17: the loop body of init_from_partial ORs exactly bit i into the mask of symbol ch and
+    leaves every other mask untouched (any masks, any i < 64, any symbol < 64) -- which is the
+    recurrence mask(s[..i+1], c) = mask(s[..i], c) | (s[i] == c) << i of the reference masks,
+    so a position array built from zeroed masks represents exactly its string, for strings of
+    any length up to 64."""
+    f = find_fn(fns, r"BlockHashPositionArrayImplMutInternal::init_from_partial$")
+    body = [bb for bb, st in f.blocks.items() if any(re.search(r"^\(\*_\d+\)\[_\d+\] = BitOr\(", s) for s in st)]
+    if len(body) != 1:
+        raise Unsupported("write block not unique")
+    wr = [s for s in f.blocks[body[0]] if re.search(r"^\(\*_\d+\)\[_\d+\] = BitOr\(", s)][0]
+    mm = re.match(r"^\(\*(_\d+)\)\[(_\d+)\] = BitOr\(copy \(\*_\d+\)\[_\d+\], move (_\d+)\);$", wr)
+    rep_local, idx_local, bit_local = mm.groups()
+    # the block that computes the bit (Shl(const 1_u64, copy i)) and the index (ch as usize)
+    shl_bb = [bb for bb, st in f.blocks.items() if any(re.search(r"= Shl\(const 1_u64, copy (_\d+)\);", s) for s in st)]
+    if len(shl_bb) != 1:
+        raise Unsupported("shift block not unique")
+    sts = f.blocks[shl_bb[0]]
+    i_local = re.search(r"= Shl\(const 1_u64, copy (_\d+)\);", [s for s in sts if "Shl(" in s][0]).group(1)
+    ch_local = re.search(r"^%s = copy (_\d+) as usize \(IntToInt\);" % re.escape(idx_local), [s for s in sts if s.startswith(idx_local + " =")][0]).group(1)
+    header = None
+    for bb, stmts in f.blocks.items():
+        m = re.match(r"^goto -> (bb\d+);$", stmts[-1])
+        if m and int(m.group(1)[2:]) < int(bb[2:]):
+            header = m.group(1)
+    i = z3.BitVec("i", 64)
+    ch = z3.BitVec("ch", 8)
+    rep = [z3.BitVec("r%d" % k, 64) for k in range(64)]
+    it = Interp(f, consts)
+    it.run(shl_bb[0], {i_local: i, ch_local: ch, "(*%s)" % rep_local: rep}, stop={header})
+    hyp = [z3.ULT(i, 64), z3.ULT(ch, 64)]
+    for (p, c, desc) in it.obligations:
+        ob.must_hold("pa_init." + re.sub(r"\W+", "_", desc)[:30], hyp + [p], c)
+    if len(it.paths) != 1:
+        raise Unsupported("loop body has %d paths" % len(it.paths))
+    pc, st, _ = it.paths[0]
+    rep2 = st["(*%s)" % rep_local]
+    want = [z3.If(ch == k, rep[k] | (z3.BitVecVal(1, 64) << i), rep[k]) for k in range(64)]
+    for k in range(64):
+        ob.must_hold("pa_init_step.mask%d" % k, hyp, rep2[k] == want[k], witness=(k == 0))
+    return ["BlockHashPositionArrayImplMutInternal::init_from_partial (MIR: loop body)"]
+
+
+OBLIGATIONS = {"roll_step": ob_roll_step, "lcs_step": ob_lcs_step, "pa_init_step": ob_pa_init_step}
 
 
 def main():
